@@ -34,11 +34,23 @@ def finding_class(eco, spec, v, impl, ref, frag):
             if ref == "invalid" and impl != "invalid":
                 return "F-C02-3" if eco != "crates" else "F-C02-4"     # accepts what the package manager rejects
             if eco == "crates":
-                return "F-C02-4"
-            # npm: partial operands vs grammar deviations
+                # Cargo reads it, the code does not: only the recorded spellings (a wildcard component after an operator, x / X)
+                if impl == "invalid" and ref != "invalid" and re.search(r"[*xX]", spec):
+                    return "F-C02-4"
+                return None
+            # npm: the recorded grammar deviation (the empty range) and the recorded readings of partial versions (bare or after '=',
+            # the ends of a hyphen range)
             if impl == "invalid":
-                return "F-C02-3"
-            return "F-C02-2"
+                if any(part.strip() == "" for part in spec.split("||")):
+                    return "F-C02-3"        # the empty range, alone or as an alternative of ||
+                if re.search(r"(^|[\s|])[^\s|]*[xX*]\.[^\s|]+", spec):
+                    return "F-C02-3"        # a wildcard component followed by further components (1.x.x, x.1)
+                if re.search(r"[^\S ]", spec.strip()):
+                    return "F-C02-3"        # white space other than blanks between comparators (a tab, U+2003)
+                return None
+            if re.search(r"(^|[\s|=])v?\d+(\.\d+)?(\s|$|\|)", spec) or " - " in spec:
+                return "F-C02-2"
+            return None
         return None
     if eco == "go":
         core = spec[:-len("+incompatible")] if spec.endswith("+incompatible") else spec
